@@ -36,7 +36,7 @@ Chk(name, c, cond, modelval) == cond \/ (PrintT("MISMATCH " \o ToString(<<"line"
 
 MsgsView(msgsx, c, g) ==
     {[id |-> k[2], state |-> msgsx[c][k].state, epoch |-> msgsx[c][k].epoch, author |-> msgsx[c][k].author,
-      w |-> msgsx[c][k].w, content |-> msgsx[c][k].content] : k \in {kk \in DOMAIN msgsx[c] : kk[1] = g}}
+      w |-> msgsx[c][k].w, content |-> msgsx[c][k].content, idok |-> msgsx[c][k].idok] : k \in {kk \in DOMAIN msgsx[c] : kk[1] = g}}
 ProcView(procx, evx, c, g) ==
     {[e |-> x, state |-> procx[c][x].state, epoch |-> procx[c][x].epoch] : x \in {y \in DOMAIN procx[c] : evx[y].g = g}}
 
@@ -58,7 +58,7 @@ PostOK(clx, evx, gix, procx, msgsx, c, g, p) ==
                                        /\ p.rec.su = gs.rec.su, gs.rec)
          /\ V("last") => Chk("last", c, p.rec.last = gs.rec.last, gs.rec.last)
     /\ V("msgs") => Chk("msgs", c,
-         {[id |-> x.id, state |-> x.state, epoch |-> x.epoch, author |-> x.author, w |-> x.w, content |-> x.content] : x \in Range(p.msgs)}
+         {[id |-> x.id, state |-> x.state, epoch |-> x.epoch, author |-> x.author, w |-> x.w, content |-> x.content, idok |-> x.idok] : x \in Range(p.msgs)}
          = MsgsView(msgsx, c, g), MsgsView(msgsx, c, g))
     /\ V("proc") => Chk("proc", c,
          {[e |-> x.e, state |-> x.state, epoch |-> x.epoch] : x \in Range(p.proc)} = ProcView(procx, evx, c, g), ProcView(procx, evx, c, g))
@@ -108,7 +108,7 @@ TClear ==
 TSend ==
     /\ R.op = "Send"
     /\ IF R.res = "Ok"
-       THEN SendMessage(R.c, R.g, NM(R.e), [id |-> R.m, claimed |-> R.claimed, content |-> R.content, ca |-> R.mts, idr |-> R.idr])
+       THEN SendMessage(R.c, R.g, NM(R.e), [id |-> R.m, claimed |-> R.claimed, content |-> R.content, ca |-> R.mts, idr |-> R.idr, preset |-> ""])
        ELSE /\ ~CanSend(R.c, R.g)
             /\ UNCHANGED vars
     /\ Post1
@@ -143,6 +143,25 @@ TSnapshot ==
     /\ UNCHANGED vars
     /\ \A i \in DOMAIN R.posts : PostOK(cl', ev', ginfo', proc', msgs', R.posts[i].c, R.posts[i].g, R.posts[i].post)
 
+TForge ==
+    /\ R.op = "Forge"
+    /\ IF R.res = "Ok"
+       THEN SendMessage(R.c, R.g, NM(R.e), [id |-> R.m, claimed |-> R.claimed, content |-> R.content, ca |-> R.mts, idr |-> R.idr, preset |-> R.preset])
+       ELSE ~CanSend(R.c, R.g) /\ UNCHANGED vars
+    /\ Post1
+
+TRaw ==
+    /\ R.op = "Raw"
+    /\ IF R.res = "Ok"
+       THEN IF R.kind = "prop_remove" THEN ProposeRemove(R.c, R.g, NM(R.e), R.arg[1])
+            ELSE DoCommitX(R.c, R.g, IF R.kind = "admins_self" THEN "admins" ELSE R.kind,
+                           CASE R.kind = "remove" -> Range(R.arg)
+                             [] R.kind = "admins_self" -> GS(R.g, cl[R.c][R.g].chain).admins \cup {R.c}
+                             [] OTHER -> R.arg,
+                           NM(R.e), <<>>, TRUE)
+       ELSE UNCHANGED vars          \* (the MLS library itself refused to build it; nothing is published)
+    /\ (R.res = "Ok") => Post1
+
 TJunk ==
     /\ R.op = "Junk"
     /\ IF R.res = "Ok" THEN PublishJunk(R.c, R.g, NM(R.e), R.class, R.tag, R.base, R.parent) ELSE UNCHANGED vars
@@ -162,7 +181,7 @@ TraceInit == Init /\ l = 2
 TraceNext ==
     /\ l <= Len(Rec)
     /\ l' = l + 1
-    /\ \/ TMeta \/ TCreate \/ TCommit \/ TMerge \/ TClear \/ TSend \/ TLeave \/ TDeliver \/ TQuiesce \/ TWelcome \/ TRestart \/ TSnapshot \/ TJunk
+    /\ \/ TMeta \/ TCreate \/ TCommit \/ TMerge \/ TClear \/ TSend \/ TLeave \/ TDeliver \/ TQuiesce \/ TWelcome \/ TRestart \/ TSnapshot \/ TJunk \/ TForge \/ TRaw
 
 ObsSame(c) == ObsOf(c)' = ObsOf(c)
 \* property invariants, evaluated by TLC in every state of every real trace
@@ -175,6 +194,9 @@ ActC03 == [][\A c \in Clients : (R.op \in {"Deliver", "Send"} /\ R.c = c /\ cl[c
                                   => (R.res \notin {"App", "Ok"} /\ msgs'[c] = msgs[c])]_tvars
 InvC08 == C08_Mirror
 InvC18 == C18_Pointer
+InvC04 == C04_Bound
+ActC04 == [][\A c \in Clients : (R.op = "Deliver" /\ R.c = c /\ R.e \in DOMAIN ev) => C04_NoForeignWrite(c, R.e)]_tvars
+InvC05 == C05_ChainAuthorised /\ C05_NoSweep
 \* C06: no panic anywhere; a refused process_message leaves everything observable as it was
 ActC06 == [][/\ ("res" \in DOMAIN R) => R.res # "Panic"
              /\ \A c \in Clients : (R.op = "Deliver" /\ R.c = c /\ R.res \in Refusals /\ R.e \in DOMAIN ev)
